@@ -26,6 +26,10 @@ Two halves.
         Collapse Solve; Collapse twice in a row; Solve Collapse Solve),
       * ``Solve`` under every generation limit of a range (every generation at which
         the run may legitimately stop, so the final solution is seen at every age).
+      * a collapse condition and an ordinary stop (ChangeOverGeneration, VTR tuned to the
+        run's own cost history) of one Or / And tree made to fire at every pair of
+        generations of a small square, so that they coincide at one generation, the
+        collapse comes first, or the stop comes first (``shard_coincide``).
     A spy on ``solver.Collapse`` records what each collapse applied, the termination
     (state, And/Or skeleton) before/after and the position in the cost's call log.
     Oracle: every later logged cost call and the final solution satisfy the applied
@@ -739,6 +743,7 @@ class Judge(object):
         driver = 'Solve' if name == 'Solve' else 'manual'
         abnormal = isinstance(outcome, tuple) and outcome and outcome[0] in ('HORIZON', 'RAISED')
         # ---- collapse events since the last operation
+        nev0 = self.nev
         for call_no, ev in enumerate(lab.events[self.nev:], self.nev):
             if ev.raised is not None or ev.returned is None:
                 continue
@@ -809,6 +814,13 @@ class Judge(object):
                     if again:
                         out.append((dict(base, clause='reported_again', kind=kind),
                                     'stop message reports %s of %s although the mask is %s' % (_fmt(again), kind, _fmt(mask))))
+        if name == 'Collapse' and not abnormal and any(ev.returned for ev in lab.events[nev0:]):
+            # a collapse was applied by hand: when the solver still reports an ordinary (non-collapse) stop, the run is over
+            # and bestSolution is its final solution
+            with lab._env():
+                msg = s.Terminated(info=True) or None
+            T.hist('X:after_manual_collapse', 'an ordinary stop holds: final solution judged' if (msg and not L.only_collapse(msg))
+                   else 'not stopped')
         # ---- the final solution
         stopped = (name == 'Solve' and not abnormal) or (msg and not L.only_collapse(msg))
         if stopped and self.rels:
@@ -912,10 +924,82 @@ def run_trace(cfg, ops, T, judged=None):
     return lab, J
 
 
+# ---- a collapse condition and an ordinary stop that become true at the SAME generation
+# The collapse leaf looks back h generations at a coordinate (pair) that is inside its tolerance from the start, so it
+# fires at generation h; the ordinary stop is ChangeOverGeneration(1e3, g) (fires at generation g) or VTR tuned to the
+# cost the same run has at generation k (fires at the first generation whose cost is that low).  ALL (g, h) / (k, h) of
+# a small square are run, so the two coincide on part of the square, the collapse comes first on another part and the
+# stop first on the rest.  Nothing new is demanded: the Judge's clauses (final_solution, mask_growth, ...) are applied.
+CO_SETUPS = {'flat3': ['At', 0.0, T4], 'tied3': ['As', False, 0.5]}
+CO_SHAPES = ('or', 'or_rev', 'and', 'or_and')
+CO_FAR = ['COG', 1e-12, 60]
+CO_SQUARE = (3, 5)     # quick / thorough: generations 1..n for both the stop and the collapse window
+
+
+def co_term(shape, stop, leaf):
+    if shape == 'or':
+        return ['Or', stop, leaf]
+    if shape == 'or_rev':
+        return ['Or', leaf, stop]
+    if shape == 'and':
+        return ['And', stop, leaf]
+    return ['Or', CO_FAR, ['And', stop, leaf]]
+
+
+def co_baseline(cfg, n):
+    """the cost of the best point at generations 1..n of this very configuration (no stop condition in the way)"""
+    c = dict(cfg, term='co:baseline', term11=['COG', -1.0, 10 ** 6])
+    lab = L.Lab11(c)
+    for _ in range(n + 1):
+        lab.apply(['Step'])
+    e = [float(v) for v in lab.solver.energy_history]
+    return e[1:n + 1]
+
+
+def co_cases(cfg, G):
+    kind = CO_SETUPS[cfg['setup']]
+    energies = co_baseline(cfg, G)
+    for h in range(1, G + 1):
+        leaf = kind + [h, None]
+        for shape in CO_SHAPES:
+            for g in range(1, G + 1):
+                yield ('cog', shape, g, h), co_term(shape, ['COG', 1e3, g], leaf)
+            for k, e in enumerate(energies, 1):
+                yield ('vtr', shape, k, h), co_term(shape, ['VTR', e, 0.0], leaf)
+
+
+def shard_coincide(cfg, G, T):
+    for tag, spec in co_cases(cfg, G):
+        c = dict(cfg, term='co:%s:%s:%d:%d' % tag, term11=spec)
+        modes = [[['Solve']]]
+        if tag[1] == 'or':
+            modes.append([['StepTo', 40], ['Collapse'], ['Solve']])
+        for ops in modes:
+            lab, J = run_trace(c, ops, T)
+            if len(ops) == 1:
+                with lab._env():
+                    msg = lab.solver.Terminated(info=True) or ''
+                parts = msg.split('; ') if msg else []
+                pend = any(p.startswith('Collapse') for p in parts)
+                ordinary = any(not p.startswith('Collapse') for p in parts)
+                T.hist('X:coincide(%s,%s)' % (cfg['solver'], tag[0]),
+                       'stopped with a collapse pending at the same generation: %s applied' % ('nothing' if not J.stats['collapses'] else 'something')
+                       if (pend and ordinary) else ('collapse applied, then stopped' if J.stats['collapses'] else 'stopped, no collapse'))
+                if pend and ordinary:
+                    T.nontriv(('coincide', cfg['solver'], cfg['setup'], tag))
+    T.hist('X:coincide_shapes', list(CO_SHAPES))
+    if (cfg['solver'], cfg['setup']) == ('NM', 'flat3'):
+        T.sample({'section': 'collapse and ordinary stop at one generation', 'solver': 'NM', 'setup': 'flat3',
+                  'termination': co_term('or', ['COG', 1e3, 2], CO_SETUPS['flat3'] + [2, None]), 'ops': [['Solve']]}, 1)
+
+
 def shard_solver(item):
     cfg, what, arg = item
     T = Tally()
     judged = set()
+    if what == 'coincide':
+        shard_coincide(cfg, arg, T)
+        return T
     if what == 'general':
         depth, first = arg
         for tail in itertools.product(range(len(OPS)), repeat=depth - 1):
@@ -1214,6 +1298,11 @@ def solver_items(ctx):
             continue     # the last DE population gets the structured histories and the stop points only
         for first in range(len(OPS)):
             items.append(('X', (cfg, 'general', (depth - 1 if cfg['setup'] == 'meas22' else depth, first))))
+    for solver in solverlab.SOLVERS:
+        for setup in sorted(CO_SETUPS):
+            c = solver_cfg(solver, setup, 'at_0', ctx.seed)
+            c['term'], c['term11'] = 'co', None
+            items.append(('X', (c, 'coincide', CO_SQUARE[1] if th else CO_SQUARE[0])))
     for pair in (SHARED_PAIRS if th else SHARED_PAIRS[:3]):
         for term in (sorted(SHARED_TERMS) if th else ['at0_as', 'at_none_g1', 'as_wide']):
             for seed in ([ctx.seed] + ([ctx.seed + 1] if th else [])):
@@ -1265,7 +1354,13 @@ def run(ctx):
                     'structured_histories': structured(ctx.thorough), 'configs': len(cfgs), 'stop_points': 'Solve under every generation limit in range%r' % (STOPS,),
                     'seeds': sorted(set(c['seed'] for c in cfgs)), 'DE_populations': 'NP=4; single start point (seed s) and random in [-1,2]^n (seed s+1); the last seed gets the structured histories and stop points only',
                     'limits(generations,evaluations)': {'default': [120, 1500], 'no_stop': [40, 400]},
-                    'evaluation_horizon': 4000, 'collapse_call_horizon': L.MAX_COLLAPSE_CALLS},
+                    'evaluation_horizon': 4000, 'collapse_call_horizon': L.MAX_COLLAPSE_CALLS,
+                    'collapse_and_stop_at_one_generation': {
+                        'solvers': list(solverlab.SOLVERS), 'setups': CO_SETUPS, 'shapes': {sh: co_term(sh, 'STOP', 'COLLAPSE') for sh in CO_SHAPES},
+                        'STOP': 'ChangeOverGeneration(1e3, g) for every g, and VTR(cost of the same run at generation k, 0.0) for every k',
+                        'COLLAPSE': 'CollapseAt(0.0, 2**-4, h) on the ignored coordinate (flat3) / CollapseAs(False, 0.5, h) (tied3) for every h',
+                        'g,k,h': 'ALL of 1..%d' % (CO_SQUARE[1] if ctx.thorough else CO_SQUARE[0]),
+                        'ops': 'Solve; for the Or shape also StepTo(40) Collapse Solve (final solution judged after the manual Collapse when an ordinary stop still holds)'}},
         'shared_termination': {'pairs': SHARED_PAIRS if ctx.thorough else SHARED_PAIRS[:3],
                                'terminations': SHARED_TERMS if ctx.thorough else {k: SHARED_TERMS[k] for k in ('at0_as', 'at_none_g1', 'as_wide')}, 'starts': SHARED_STARTS,
                                'scenarios': [[n, p] for n, p, f in SHARED_PREFIXES],
@@ -1289,7 +1384,8 @@ def run(ctx):
         "With clip=True the detector can cut away samples below the limit (even the minimum): counted in a histogram, not judged",
         "CollapseAt(target=None) fixes a parameter 'at its target' = at one constant value from the collapse on (which value is recorded, not judged)",
         "CollapseAs(offset=True): the statement names only 'equal to its partner'; the imposed relation (x[j] = x[i] + True) is recorded, not judged",
-        "the final solution is judged when Solve returns or a Step reports a stop that is not a pending collapse",
+        "the final solution is judged when Solve returns or a Step reports a stop that is not a pending collapse, and after a manual Collapse() "
+        "that applied something while Terminated(info=True) still names an ordinary (non-collapse) stop condition",
         "violation signatures carry overlap=True when an applied collapse of the other family (fix a parameter / tie a pair) touches the same parameter (competing constraints); "
         "overlap_kind says whether all competing collapses came from the same Collapse() call as the failing one (same_collapse) or not (across_collapses)",
         "section T: while a solver's history is not longer than the window (the factories report nothing then) only 'nothing is reported that "
